@@ -208,7 +208,8 @@ fn res_str<T>(r: &Result<T, ZmqError>) -> String {
 }
 
 fn mk_msg(id: &str, size: usize, more: bool) -> Msg {
-  let mut m = Msg::from_vec(payload(id, size));
+  // size 0 asks for an empty frame (no id inside)
+  let mut m = if size == 0 { Msg::from_vec(Vec::new()) } else { Msg::from_vec(payload(id, size)) };
   if more {
     m.set_flags(MsgFlags::MORE);
   }
